@@ -110,7 +110,7 @@ def gen_looks(rng, secs, content):
 class CHECK(Check):
     pid = "C13"
     entry = "SECTIONFILE"
-    theorems = ["C13_total_roundtrip", "C13_declared_order", "C13_handoff", "C13_leftovers"]
+    theorems = ["C13_total_roundtrip", "C13_declared_order", "C13_handoff", "C13_leftovers", "C13_until_extent"]
     rule = ("section lists of 0-4 raw sections (consuming a fixed number 0-3 of lines, or lines up to and including the first "
             "one matching a pattern) x text contents from empty to longer than the sections consume, read from memory or (a third) from a utf-8 file on disk, with and without final "
             "newline: every content of <=4 lines (quick: <=3) over an 8-line pool for 12 fixed section lists (complete), plus "
